@@ -25,7 +25,7 @@ TRUSTED_BASE = [
 	'Lean 4.33 kernel; axioms of the property theorems: subset of {propext, Classical.choice, Quot.sound}',
 	'byte identity of the two 350 KB modules is an executed comparison, not a theorem (string literals of that size do not elaborate)',
 	'yaml stand-in in /verif/shims (catparser.__main__ imports yaml; --quiet runs never dump YAML)',
-	'emission plan model SymbolVerif/Model/Codec/Emission.lean covers class order and TYPE_HINTS only; method-body text is not modelled',
+	'emission plan model SymbolVerif/Model/Codec/Emission.lean covers class order, TYPE_HINTS and the text of the serialize/_serialize/size bodies; other method bodies are not modelled',
 ]
 ASSUMPTIONS = ['the generator is run with /venv/bin/python; other interpreter versions are out of scope']
 
@@ -65,6 +65,47 @@ def module_skeleton(text):
 						hints.append((key.value, value.value))
 		classes.append((node.name, hints))
 	return classes
+
+
+def method_bodies(text):
+	"""{class: {method: [body lines, dedented]}} for serialize, _serialize and the size property of every class of a generated module."""
+	tree = ast.parse(text)
+	lines = text.split('\n')
+	result = {}
+	for node in tree.body:
+		if not isinstance(node, ast.ClassDef):
+			continue
+		methods = {}
+		for item in node.body:
+			if isinstance(item, ast.FunctionDef) and item.name in ('serialize', '_serialize', 'size'):
+				body = lines[item.body[0].lineno - 1:item.end_lineno]
+				methods[item.name] = [line[2:] if line.startswith('\t\t') else line for line in body]
+		result[node.name] = methods
+	return result
+
+
+def compare_bodies(ctx, driver, label, schema, text):
+	"""The serialize / _serialize / size bodies of every struct class against the text the Lean emission model derives from the IR."""
+	bodies = method_bodies(text)
+	ir = cats.to_json(schema)
+	requests = []
+	for name, typedef in schema:
+		if 'struct' != typedef['k']:
+			continue
+		requests.append((name, 'serialize', f'body serialize {name} {ir}'))
+		requests.append((name, 'size', f'body size {name} {ir}'))
+		if typedef['abstract']:
+			requests.append((name, '_serialize', f'body _serialize {name} {ir}'))
+	answers = driver.ask_many([line for _, _, line in requests])
+	for (name, method, _), answer in zip(requests, answers):
+		ctx.case(('body', label, name, method), None)
+		ctx.count(f'method-bodies:{method}')
+		model = bytes.fromhex(answer).decode('utf8').split('\n') if answer not in ('-', 'not-a-struct') and not answer.startswith('bad') else [answer]
+		actual = bodies.get(name, {}).get(method)
+		if actual != model:
+			differing = next((pair for pair in zip(model, actual or []) if pair[0] != pair[1]), (model[len(actual or []):][:1], (actual or [])[len(model):][:1]))
+			ctx.fail('corr', f'{label}.{name}.{method}: emitted body differs from the emission model', {
+				'network': label, 'type': name, 'method': method, 'model_line': differing[0], 'module_line': differing[1]})
 
 
 def run(ctx):
@@ -133,6 +174,7 @@ def run(ctx):
 			if plan != ','.join(name for name, _ in skeleton):
 				ctx.fail('corr', f'{network}: classes of the generated module are not the emission plan (declaration order, then factories)', {
 					'network': network, 'model': plan[:2000], 'module': ','.join(name for name, _ in skeleton)[:2000]})
+			compare_bodies(ctx, ctx.driver, network, schema, shipped.decode('utf8'))
 			names = [name for name, typedef in schema if 'struct' == typedef['k']]
 			answers = ctx.driver.ask_many([f'hints {name} {text}' for name in names])
 			module_hints = dict(skeleton)
@@ -158,7 +200,7 @@ MANIFEST = {
 		'members in layout order) is a function of the declarations alone, and the only hash-ordered iteration feeding the generator is order-independent '
 		'(C18). The plan and hint tables computed by the Lean model from the independent IR are compared with the ast skeleton of the module.'),
 	'level_note': (
-		'partial: method-body text is not modelled; byte identity is an executed comparison; yaml stand-in needed to import catparser.__main__; '
+		'partial: only the serialize/_serialize/size bodies are modelled as text; byte identity is an executed comparison; yaml stand-in needed to import catparser.__main__; '
 		'Lean kernel + standard axioms for the plan theorems.'),
 	'technique': 'executed differential of the real generator over configurations + Lean theorems about the emission plan',
 }
